@@ -24,16 +24,87 @@ Definition expected (o : outcome) : N * N :=
   | Forward => (1, 4)
   | WaitLocal => (0, 5)
   | AckNoAttach => (1, 0)
+  | Parked => (1, 6)
   end%N.
 
 Definition model_obs (v : tval) : N * N * bool :=
   let c := dec_cell (vnth 1 v) in
   (expected (cell_open (dec_variant (vnth 0 v)) c), cell_entitled c).
 
+Open Scope N_scope.
+(* ---- histories (harness/cmd/c04/hist.go) --------------------------------------------------------------------
+   case value: [ [validate_first; secret_isvalid] ; [99; routing] ; steps ; obs ]
+   step: open  [0; who (0 none 1 half 2 L 3 T 4 S 5 X); mid (0 none 1 m1 2 m2); secret (0 none 1 right 2 wrong); tun; registered]
+         setm  [1; m; state (0 active 1 revoked 2 expired 3 inactive 4 missing)]
+         route [2; tun; node (0 remove, 1 the other node); m]      close [3; tun]      sleep [4]
+   obs per step: [ack; role; snapshot]; snapshot = [b0; mid0; src0; tgt0; b1; mid1; src1; tgt1; forwarded tunnels; parked]
+   connection of step i is connref i+1; tunnels are 7 and 8; clients L=11 T=12 S=13 X=14; M1=(11,12,101) M2=(13,14,102);
+   after every step the routing poll of every parked request fires once (EResolve), as the harness awaits it *)
+Definition h_client (who : N) : client := match who with 2 => 11 | 3 => 12 | 4 => 13 | 5 => 14 | _ => 0 end.
+Definition h_state (k : N) : t_mstate :=
+  match k with 0 => MActive | 1 => MRevoked | 2 => MExpired | 3 => MInactive | _ => MMissing end.
+Definition h_mapping (m : N) (st : t_mstate) : option mapping :=
+  if N.eqb m 1 then mk_mapping 11 12 101 st else mk_mapping 13 14 102 st.
+Definition h_db0 : db := fun m => if N.eqb m 1 then h_mapping 1 MActive else if N.eqb m 2 then h_mapping 2 MActive else None.
+Definition h_req (mid sec tun : N) : request :=
+  {| r_mid := mid; r_tid := 7 + tun;
+     r_secret := match sec with 0 => 0 | 1 => (if N.eqb mid 2 then 102 else 101) | _ => 999 end; r_resume := false |}.
+Definition h_cfg (routing : bool) : config := {| cfg_self := 1; cfg_crossnode := routing; cfg_routing := routing |}.
+
+Definition resolve_all (v : variant) (cfg : config) (s : sys) : sys :=
+  fold_left (fun s' cr => step v cfg s' (EResolve cr)) (map (fun p => fst (fst p)) (s_park s)) s.
+
+Definition optn (o : option N) : N := match o with Some x => x | None => 0 end.
+Definition snap_tun (s : sys) (t : tid) : list N :=
+  match s_tun s t with
+  | Some b => [1; b_mid b; optn (b_src b); optn (b_tgt b)]
+  | None => [0; 0; 0; 0]
+  end.
+Definition snapshot (s : sys) : list N :=
+  snap_tun s 7 ++ snap_tun s 8 ++
+  [ (if existsb (fun p => N.eqb (snd p) 7) (s_fwd s) then 1 else 0) + (if existsb (fun p => N.eqb (snd p) 8) (s_fwd s) then 1 else 0);
+    N.of_nat (length (s_park s)) ].
+
+(* one history step: (ack, role) of an open as decided on the state before it, then the state after it and the polls *)
+Definition h_step (v : variant) (cfg : config) (s : sys) (i : N) (st : tval) : (N * N) * sys :=
+  let a := vn (vnth 1 st) in let b := vn (vnth 2 st) in let c := vn (vnth 3 st) in let d := vn (vnth 4 st) in
+  match vn (vnth 0 st) with
+  | 0 => let cid := {| c_registered := vbool (vnth 5 st); c_client := h_client a |} in
+         let r := h_req b c d in
+         (expected (open v cfg (s_db s) (s_tun s) (s_rt s) cid r), resolve_all v cfg (step v cfg s (EOpen (i + 1) cid r)))
+  | 1 => ((0, 0), resolve_all v cfg (step v cfg s (ESetMapping a (h_mapping a (h_state b)))))
+  | 2 => ((0, 0), resolve_all v cfg (step v cfg s (ESetRoute (7 + a) (if N.eqb b 0 then None else Some {| ro_node := 2; ro_mid := c |}))))
+  | 3 => ((0, 0), resolve_all v cfg (step v cfg s (ECloseBridge (7 + a))))
+  | _ => ((0, 0), s)
+  end.
+
+Fixpoint h_run (v : variant) (cfg : config) (s : sys) (i : N) (steps : list tval) : list ((N * N) * list N) :=
+  match steps with
+  | [] => []
+  | st :: rest => let '(ar, s') := h_step v cfg s i st in (ar, snapshot s') :: h_run v cfg s' (i + 1) rest
+  end.
+
+Definition hist_model (v : tval) : list ((N * N) * list N) :=
+  h_run (dec_variant (vnth 0 v)) (h_cfg (vbool (vnth 1 (vnth 1 v)))) (init h_db0 (fun _ => None)) 0 (vl (vnth 2 v)).
+
+Fixpoint nlist_eqb (a b : list N) : bool :=
+  match a, b with [], [] => true | x :: a', y :: b' => N.eqb x y && nlist_eqb a' b' | _, _ => false end.
+Definition hist_obs_ok (m : (N * N) * list N) (o : tval) : bool :=
+  let '((ack, role), snap) := m in
+  N.eqb ack (vn (vnth 0 o)) && N.eqb role (vn (vnth 1 o)) && nlist_eqb snap (map vn (vl (vnth 2 o))).
+Definition check_hist (v : tval) : bool := all2 hist_obs_ok (hist_model v) (vl (vnth 3 v)).
+Definition predict_hist (v : tval) : tval :=
+  VL (map (fun m => let '((ack, role), snap) := m in VL [VN ack; VN role; VL (map VN snap)]) (hist_model v)).
+Definition is_hist (v : tval) : bool := N.eqb (vn (vnth 0 (vnth 1 v))) 99.
+
+Close Scope N_scope.
+
 Definition check (v : tval) : bool :=
+  if is_hist v then check_hist v else
   let '((ack, role), ent) := model_obs v in
   let o := vnth 2 v in
   N.eqb ack (vn (vnth 0 o)) && N.eqb role (vn (vnth 1 o)) && Bool.eqb ent (vbool (vnth 2 o)).
 
 Definition predict (v : tval) : tval :=
+  if is_hist v then predict_hist v else
   let '((ack, role), ent) := model_obs v in VL [VN ack; VN role; vN_of_bool ent].
